@@ -15,6 +15,7 @@ Extension word (precedes the instruction word):
    operand word of the instruction.  A format II instruction (RRCX RRAX SWPBX SXTX PUSHX) addresses its
    single operand with the As field, its high nibble therefore is the *source* nibble of the
    extension word (bits 10:7) - this is also what TI's binutils port emits.
+   RRUX Rdst = the RRC operation with ZC = 1 in the extension word (register mode only).
    SWPBX.A / SXTX.A: A/L = 0 with B/W = 0 (the instructions have no byte form, bit 6 of the opcode
    word is part of the operation code).
    The constant generators work in extended instructions, too (-1 is 0FFFFFh for .A).
@@ -34,8 +35,9 @@ Emulated: BRA dst = MOVA dst,PC; RETA = MOVA @SP+,PC; CLRA Rd = MOV #0,Rd; TSTA 
    POPX dst = MOVX @SP+,dst.
 
 Not generated (assembler-specific, ambiguous or not offered by AS):
- - RRUX (AS does not implement it - reported); everything vf/isa/msp430.py excludes for the base
-   set (R3 as explicit register, PC/SR/R3 as base of indexed/indirect operands, zero index of a
+ - RRUX with anything but a register operand (TI: "valid for register mode only"; the pinned AS
+   did not know RRUX at all - reported and repaired); everything vf/isa/msp430.py excludes for the
+   base set (R3 as explicit register, PC/SR/R3 as base of indexed/indirect operands, zero index of a
    source operand = AS writes @Rn, byte immediate 255, PUSHX immediates a constant generator could
    produce, @Rn as destination)
  - negative immediates of .W/.B extended instructions other than -1 are generated only with a
@@ -269,6 +271,11 @@ def build():
                                enc_one(op, size, "#raw" if sm == "#N" else sm, v, pc, nobyte=nob))
                               (op, size, sm, not hasb), dontcare=imm_dontcare(size, sm),
                               note="W" if size == "W" else None, rel=sym_rel(sm, 0, None)))
+    # RRUX: register mode only; the RRC operation with ZC = 1 (zero shifted into the MSB)
+    for sz, size in SIZES:
+        F.append(Form("RRUX%s Rn" % sz, "RRUX%s {0}" % sz, [Enum(REGN)],
+                      (lambda size: lambda pc, v: enc_one(0, size, "Rn", v, pc, rpt=0x100))(size),
+                      note="W" if size == "W" else None))
     # ---- emulated extended instructions
     EMU1 = {"ADCX": ("ADDC", 0), "DADCX": ("DADD", 0), "DECX": ("SUB", 1), "DECDX": ("SUB", 2), "INCX": ("ADD", 1),
             "INCDX": ("ADD", 2), "SBCX": ("SUBC", 0), "INVX": ("XOR", -1), "CLRX": ("MOV", 0), "TSTX": ("CMP", 0)}
@@ -390,11 +397,12 @@ def build():
                                   (lambda op, size, rpt: lambda pc, v:
                                    enc_two(op, size, "Rn", v[1:2], "Rn", v[2:3], pc, rpt(v[0])))
                                   (OPS1[m[:-1]], size, rpt)))
-                for m in ("RRCX", "RRAX"):
+                for m in ("RRCX", "RRAX", "RRUX"):
                     F.append(Form("%s %s %s%s Rn" % (pm, cm, m, sz), "%s %s %s%s {1}" % (pm, ctxt, m, sz),
                                   [cop, Enum(REGN)],
-                                  (lambda op, size, rpt: lambda pc, v: enc_one(op, size, "Rn", v[1:2], pc, rpt(v[0])))
-                                  (OPS2X[m][0], size, rpt)))
+                                  (lambda op, size, rpt, zc: lambda pc, v:
+                                   enc_one(op, size, "Rn", v[1:2], pc, rpt(v[0]) | zc))
+                                  (OPS2X.get(m, (0,))[0], size, rpt, 0x100 if m == "RRUX" else 0)))
                 for m, real in (("RLAX", "ADD"), ("RLCX", "ADDC")):
                     F.append(Form("%s %s %s%s Rn" % (pm, cm, m, sz), "%s %s %s%s {1}" % (pm, ctxt, m, sz),
                                   [cop, Enum(REGN)],
